@@ -41,6 +41,10 @@ ENT_POOL = [b"nbsp", b"copy", b"or", b"Amp", b"x1", b"apos", b"", b"a;b", b"LT",
 REGEXES = [b".*", b"[a-z]+", b"(http|https|ftp)://.*", b"[0-9]+(px|em|%)?", b"[a-zA-Z0-9 _.-]*", b"[^<>\"']*", b"(left|right|center)"]
 SCHEMES = [b"(http|https|ftp|mailto|news|nntp)", b"(http|https)", b"[a-z]+"]
 ENCODINGS = [b"UTF-8", b"utf8", b"ISO-8859-1", b"iso-8859-8", b"ISO-8859-6", b"windows-1255", b"cp1251", b"US-ASCII", b"koi8-r", b"latin1", b"windows-1252"]
+UTF8_BOUNDARY = [b"\xf4\x8f\xbf\xbf", b"\xf4\x90\x80\x80", b"\xf4\xbf\xbf\xbf", b"\xed\x9f\xbf", b"\xed\xa0\x80", b"\xed\xbf\xbf", b"\xee\x80\x80", b"\xe0\x9f\xbf", b"\xe0\xa0\x80",
+                 b"\xc1\xbf", b"\xc2\x80", b"\xc0\x80", b"\xdf\xbf", b"\xf0\x8f\xbf\xbf", b"\xf0\x90\x80\x80", b"\xf5\x80\x80\x80", b"\xf7\xbf\xbf\xbf", b"\xf8\x88\x80\x80\x80",
+                 b"\xf4\x8f\xbf", b"\xf4\x8f", b"\xf4", b"\xe2\x82", b"\xe2", b"\xc2", b"\xf0\x90\x80", b"\x80", b"\xbf", b"\xef\xbf\xbd", b"\xef\xbf\xbf", b"\xc2\xa0", b"\xe2\x82\xac\x80",
+                 b"\xf4\x90\xbf\xbf", b"\xf3\xbf\xbf\xbf", b"\xf1\x80\x80\x80"]
 ENC_BYTES = [b"\xc3\xa9", b"\xd7\xa9\xd7\x9c", b"\xe2\x82\xac", b"\xf0\x9f\x98\x80", b"\xff", b"\xc3", b"\xa9", b"\xe2\x82", b"\xc0\xaf", b"\xed\xa0\x80", b"\xf4\x90\x80\x80",
              b"\x04", b"\x7f", b"\x80", b"\x9f", b"\xa0", b"\xa1", b"\xbf", b"\xd2", b"\xe9", b"\x00", b"\x0b", b"\x1f", b"\xef\xbf\xbe", b"\xfe"]
 
@@ -353,11 +357,41 @@ def gen_input(rs, rng):
         s = mutate(rng, s)
     if rs.enc and rng.random() < 0.7:
         b = bytearray(s)
-        for _ in range(rng.choice((1, 1, 2, 4))):
+        utf8 = is_utf8_name(rs.enc)
+        for _ in range(rng.choice((1, 1, 1, 2, 4))):
             i = rng.randrange(len(b) + 1)
-            b[i:i] = rng.choice(ENC_BYTES)
+            b[i:i] = rng.choice(UTF8_BOUNDARY) if (utf8 and rng.random() < 0.6) else rng.choice(ENC_BYTES)
         s = bytes(b)
     return s
+
+
+def is_utf8_name(enc):
+    return bytes(c for c in enc.lower() if chr(c).isalnum()) == b"utf8"
+
+
+def systematic_cases():
+    """deterministic streams: (a) comment bodies with a markup byte at every position incl. first and last,
+    (b) UTF-8 boundary sequences inside otherwise valid text"""
+    cases = []
+    tags = "%s:3,%s:1" % (hx(b"a"), hx(b"b"))
+    bodies = [b"", b"x", b" x ", b"[if IE]", b" a - b "]
+    for xh in (1, 0):
+        for com in (1, 0):
+            f = "%d%d1 - %s - -" % (xh, com, tags)
+            for mk in (b"<", b">", b"&", b"<b>", b"&amp;", b"&lt;", b"-", b"--", b"->", b"!"):
+                for body in bodies:
+                    for pos in sorted(set((0, 1, len(body) // 2, max(0, len(body) - 1), len(body)))):
+                        bd = body[:pos] + mk + body[pos:]
+                        for pre, post in ((b"a", b"b"), (b"", b""), (b"<b>", b"</b>")):
+                            cases.append("C %s %s" % (f, hexs(pre + b"<!--" + bd + b"-->" + post)))
+    for enc in (b"UTF-8", b"utf8"):
+        for xh in (1, 0):
+            f = "%d11:%s:0 - %s - -" % (xh, hx(enc), tags)
+            for seq in UTF8_BOUNDARY:
+                for pre, post in ((b"a", b"b"), (b"", b""), (b"<b>", b"</b>"), (b"<b>x</b>\xc3\xa9", b"&amp;"), (b"<x>", b"<"), (b"&", b";")):
+                    cases.append("C %s %s" % (f, hexs(pre + seq + post)))
+        cases.append("C 111:%s:63 - %s - - %s" % (hx(enc), tags, hexs(b"a\xf4\x90\x80\x80b\xffc")))
+    return cases
 
 
 def gen_cases(c, n_rules, per_rule):
@@ -533,6 +567,27 @@ def run_all(c, hbin, model, cases, label):
             if which == "escape" and fesc == frm:
                 continue
             jl.append((k, which, "J " + " ".join(base[1:6]) + " " + o + " " + tables[k]))
+    # declared encoding UTF-8: what validate accepts, and what the filter returns, must be well-formed UTF-8 by the
+    # independent RFC 3629 predicate of Spec.lean (not by the library's own validator)
+    wl = []
+    for k in range(n):
+        fl = cases[k].split()[1].split(":")
+        if len(fl) != 3 or not is_utf8_name(unhex(fl[1] or "-")):
+            continue
+        mm = FIELD_RE.match(impl[k])
+        if not mm:
+            continue
+        v, rm, esc, frm, fesc, vrm, vesc = mm.groups()
+        if v == "1":
+            wl.append((k, "validate accepted text that is not well-formed UTF-8 (RFC 3629)", cases[k].split()[6]))
+        wl.append((k, "filter(x, remove_invalid) is not well-formed UTF-8 (RFC 3629)", frm))
+        if fesc != frm:
+            wl.append((k, "filter(x, escape_invalid) is not well-formed UTF-8 (RFC 3629)", fesc))
+    if wl:
+        rc_w, out_w, err_w = c.run_lines(model, ["W " + h for _, _, h in wl])
+        for (k, what, h), o in zip(wl, out_w + ["<no output>"] * (len(wl) - len(out_w))):
+            if o != "1":
+                bad.append((k, what))
     # lean judge, with a second round for oracle verdicts the lenient tokenizer needs
     for rnd in range(3):
         if not jl:
@@ -628,7 +683,7 @@ def main():
         corpus = []
     else:
         corpus = corpus_cases()
-        cases = [l for l in corpus if l.startswith("C ")] + (gen_cases(c, 1500, 30) if thorough else gen_cases(c, 150, 20))
+        cases = [l for l in corpus if l.startswith("C ")] + systematic_cases() + (gen_cases(c, 1500, 30) if thorough else gen_cases(c, 150, 20))
 
     if c.replay_path and hbin and os.path.exists(model) and cases and cases[0].startswith("U "):
         udiffs, ucrash, uacc, ubad = run_uri(c, hbin, model, cases)
@@ -670,7 +725,8 @@ def main():
                 dist["with_invalid_entries"] += 1
         c.extra_cov["distribution"] = dist
         c.extra_cov["judged_impl_outputs"] = 2 * min(n, len(impl))
-        c.extra_cov["judge"] = ("on the real library's outputs: validate(filter(x)) = true (both methods); lenientMarkup(filter(x)) all Allowed "
+        c.extra_cov["judge"] = ("declared encoding UTF-8: accepted input and both outputs well-formed by the independent RFC 3629 predicate Spec.utf8WellFormed; "
+                                "on the real library's outputs: validate(filter(x)) = true (both methods); lenientMarkup(filter(x)) all Allowed "
                                 "(Lean Spec); validate(x) => filter(x) = x and validate_and_filter_if_invalid returns true leaving output untouched; "
                                 "the three entry points agree")
         if res["crashed"]:
